@@ -537,6 +537,16 @@ func cmdCheck(args []string) {
 			"termination is not proved",
 		)
 		assumptions = append(assumptions, "A-MODULAR: obligations of the verified functions that carry other properties' tags are taken as assumptions in this run; each is proved by the check of its own property (all 19 claimed properties are checked)")
+		for _, wo := range db.writeonly {
+			if hasTag(wo.Tags, *prop) {
+				assumptions = append(assumptions, "A-SAFEGO (writeonly "+wo.Field+"): decided by a scan of every store and escaping field address in the functions of the two own packages, not by a solver; writes through unsafe or reflect are not modelled (neither package imports them); test files are not part of the scan")
+			}
+		}
+		for _, cg := range db.callguards {
+			if hasTag(cg.Tags, *prop) {
+				assumptions = append(assumptions, "A-GUARDLIST (callguard "+cg.Text+"): the list of external functions that wait for a peer is hand-written; a blocking function missing from the list is not guarded")
+			}
+		}
 		if cls, ok := propClasses[*prop]; ok {
 			assumptions = append(assumptions, "this property is decided by the obligation classes "+strings.Join(cls, ", ")+" only; the functional obligations (POST, PRE other than lock ownership, INV, FRAME, SAFE) of the same functions are assumptions here")
 		}
